@@ -6,11 +6,18 @@ PID = "C05"
 PROP_V = ["Props/Properties_C05cv.v", "Props/Properties_C05mu.v"]
 GEN_MODULES = ["Consts", "Sites"]
 REPLAY_HINT = "VRT_SEED=<seed> [VRT_MODE=<m>] _work/h/cv_mix | muwait_mix | cancel_mix"
-PARTIAL = []
+PARTIAL = ["the mu_wait half is C05mu_return over MuWaitModel (mode on return, 0 iff the condition is true, ETIMEDOUT only with an earlier clock "
+           ">= deadline, ECANCELED only with a notified note); the cv half is Properties_C05cv over CvModel when present in the tree; "
+           "'once the deadline has passed or the note is notified the call needs no further wake-up' is decided by the stuck detector and the "
+           "cancel_mix oracle (no ETIMEDOUT when the cancellation had completed before the deadline), not by a theorem"]
+TRUSTED_BASE = ["Model/MuWaitModel.v / Model/CvModel.v control skeletons validated by lock-step replay"]
 
 
 def run(tier, seed):
+    import mu_common
     res = {"violations": [], "broken": [], "coverage": {}}
+    tie = mu_common.tie(res, "muwait_replay", "MuWaitModel", [("muwait_mix", {"VRT_MODE": 0, "VRT_CV": 0}, 200, 2000),
+                                                              ("muwait_mix", {"VRT_MODE": 1, "VRT_CV": 0}, 200, 2000)], tier, seed)
     specs = [("cv_mix", {"VRT_MODE": 0}, 2000, 40000), ("cv_mix", {"VRT_MODE": 4}, 1500, 30000), ("muwait_mix", {"VRT_MODE": 0}, 2000, 40000),
              ("muwait_mix", {"VRT_MODE": 1}, 1000, 20000), ("cancel_mix", {}, 3000, 60000)]
     cov = scen_common.run_scenarios(res, specs, tier, seed, {"C05", "C01"} | scen_common.LIVENESS | scen_common.CRASHES)
@@ -18,5 +25,6 @@ def run(tier, seed):
                    "deadline for ETIMEDOUT, note state for ECANCELED, condition value for mu_wait; cancel_mix: notes fresh / already notified / "
                    "expiring / children of expiring parents, notified at every point of the wait, reader and writer mode: once the note is "
                    "notified the call must return without any further wake-up; non-trivial = runs with semaphore sleeps")
+    cov.update(tie)
     res["coverage"] = cov
     return res
